@@ -2,7 +2,7 @@
    The reflection-driven encoder as a whole is decided by differential execution only; proved here, for EVERY
    input, are the string escaping and the integer formatting that every encoder path ends in. *)
 From Verif Require Import Base.GoInt Json.Spec Json.ValidProofs Json.StrSpec Json.NumSpec
-  Json.StrEncProofs Json.StrSpecProofs Json.StrLinkProofs Json.NumProofs.
+  Json.StrEncProofs Json.StrSpecProofs Json.StrLinkProofs Json.NumProofs Json.FloatModel Json.FloatSpec Json.FloatProofs.
 
 (* encoder.encodeString (json/encode.go), MACHINE-TRANSLATED on every run (Generated/JsonStringGen.v; it calls the
    translated escapeIndex / escapeByteRepr of Generated/JsonParseGen.v and the hand model of utf8.DecodeRuneInString
@@ -61,3 +61,58 @@ Proof. exact NumProofs.z_to_dec_canonical. Qed.
 (* every value of every Go integer type survives formatInteger followed by the typed decoder *)
 Theorem c01_int_round_trip : int_round_trip_statement.
 Proof. exact NumProofs.int_round_trip. Qed.
+
+(* encodeFloat32 / encodeFloat64 / encodeFloat (json/encode.go; HAND model Json/FloatModel.v following the Go text:
+   NaN / Inf test, choice of the strconv format byte from the magnitude, strconv.AppendFloat, rewriting of e-0d to e-d)
+   against encoding/json's floatEncoder.encode (independent transcription Json/FloatSpec.v). strconv.AppendFloat is
+   NOT modelled: the theorems hold for EVERY function in its place, every float description, bit size and buffer.
+   Tied to the code and to encoding/json by the s.float / s.floatq cases.
+   Main theorem: for every appending function whose 'e' text has at least four bytes the package glue and the
+   encoding/json glue agree: both an unsupported-value error, or the same bytes *)
+Theorem c01_float_glue_equal : float_glue_equal_statement.
+Proof. exact FloatProofs.float_glue_equal. Qed.
+
+(* the same under the hypothesis that the 'e' text ends in e, a sign and at least two digits (strconv's %e) *)
+Theorem c01_float_glue_equal_shaped : float_glue_equal_shaped_statement.
+Proof. exact FloatProofs.float_glue_equal_shaped. Qed.
+
+(* no hypothesis at all is needed with an empty destination buffer (json.Marshal of a bare float) ... *)
+Theorem c01_float_glue_equal_nil : float_glue_equal_nil_statement.
+Proof. exact FloatProofs.float_glue_equal_nil. Qed.
+
+(* ... nor when the format is 'f' (zero, or a magnitude inside [1e-6, 1e21) at the given size) *)
+Theorem c01_float_glue_equal_f : float_glue_equal_f_statement.
+Proof. exact FloatProofs.float_glue_equal_f. Qed.
+
+(* the hypothesis cannot be dropped: the package cleans the WHOLE destination buffer, encoding/json its own scratch
+   buffer; after the destination e- an appending function returning 07 gives e-7 in the package and e-07 in
+   encoding/json (not reachable with strconv.AppendFloat, whose 'e' text has at least five bytes) *)
+Theorem c01_float_glue_unrestricted_refuted : float_glue_unrestricted_refuted_statement.
+Proof. exact FloatProofs.float_glue_unrestricted_refuted. Qed.
+
+(* exactly when cleaning prefix and number together equals cleaning the number alone *)
+Theorem c01_clean_exp_prefix_iff : clean_exp_prefix_iff_statement.
+Proof. exact FloatProofs.clean_exp_prefix_iff. Qed.
+
+(* the two clean-up blocks are the same function of the slice they are given; what that function does:
+   e-0d becomes e-d, every other exponent is left alone *)
+Theorem c01_clean_exp_same : clean_exp_same_statement.
+Proof. exact FloatProofs.clean_exp_same. Qed.
+Theorem c01_clean_exp_cases : clean_exp_cases_statement.
+Proof. exact FloatProofs.clean_exp_cases. Qed.
+Theorem c01_exp_shaped_len : exp_shaped_len_statement.
+Proof. exact FloatProofs.exp_shaped_len. Qed.
+
+(* for an infinity both report an UnsupportedValueError, with different Str texts (inf against strconv's +Inf / -Inf);
+   C01 compares the presence of the error only *)
+Theorem c01_float_error_str : float_error_str_statement.
+Proof. exact FloatProofs.float_error_str. Qed.
+
+(* encoding/json's string option (opts.quoted) writes the same text between two quotes *)
+Theorem c01_std_float_quoted : std_quoted_statement.
+Proof. exact FloatProofs.std_quoted. Qed.
+
+(* the threshold bit patterns with which the correspondence check classifies a float (float_repr_of_bits) are the
+   float64 / float32 values nearest to 10^-6 and 10^21 *)
+Theorem c01_float_thresholds_nearest : thresholds_nearest_statement.
+Proof. exact FloatProofs.thresholds_nearest. Qed.
